@@ -431,7 +431,17 @@ fn main() {
         Some("record") => {
             let mut rng = Rng::new(arg_u64(&args, "--seed", 1));
             let n = arg_u64(&args, "--n", 100);
-            let cases: Vec<Value> = (0..n).map(|_| random_case(&mut rng)).collect();
+            let mut cases: Vec<Value> = (0..n).map(|_| random_case(&mut rng)).collect();
+            // titles made of balanced parentheses nested around the reader's literal-string limit (100)
+            for depth in [99usize, 100, 101, 130] {
+                let mut t: Vec<u32> = vec![0x28; depth];
+                t.push(0x61 + (depth % 26) as u32);
+                t.extend(std::iter::repeat(0x29).take(depth));
+                let sib: Vec<u32> = "()) plain ((".chars().map(|c| c as u32).collect();
+                cases.push(json!({"np": 2, "adds": [{"parent": 0, "title": sib, "page": 0, "zg": 0, "fmt": 0},
+                    {"parent": 1, "title": t, "page": 2, "zg": 0, "fmt": 0}, {"parent": 0, "title": [0x4E2D, 0x28], "page": 1, "zg": 0, "fmt": 1}],
+                    "adjust": true, "style": rng.next_u64() >> 34, "fmts": ["table", "stream"], "chain": depth % 2 == 0}));
+            }
             supervise(&cases, &arg(&args, "--out").unwrap());
         }
         _ => {
